@@ -447,3 +447,266 @@ pub fn emit_rt(a: &Args, out: &mut Out) {
         out.emit(json!({"ev": "Rt", "run": run, "src": rec["src"], "dbg": rec["dbg"], "obj": js::obj(&o), "rt": rt_json(&o), "panic": 0}));
     }
 }
+
+// ---------------------------------------------------------------------------
+// untrusted object files (C19)
+
+/// An object file as data, free of the assembler's invariants; written by the harness's own
+/// writers (the formats as documented in asm/encoding.rs), so that the real readers see
+/// files no writer of the crate would produce.
+#[derive(Clone, Debug, Default)]
+struct MalObj {
+    blocks: Vec<(u16, Vec<Option<u16>>)>,
+    labels: Vec<(String, u16, bool, u64)>,
+    rel: Vec<(u16, String)>,
+    lines: Vec<(u64, Vec<u16>)>,
+    src: Option<String>,
+    sym: bool,
+}
+impl MalObj {
+    fn of(o: &ObjectFile) -> MalObj {
+        let mut m = MalObj::default();
+        m.blocks = o.verif_block_iter().map(|(s, w)| (s, w.to_vec())).collect();
+        if let Some(st) = o.symbol_table() {
+            m.sym = true;
+            m.labels = st.label_iter().map(|(k, a, x)| (k.to_string(), a, x, st.verif_label_src_start(k).unwrap_or(0) as u64)).collect();
+            m.labels.sort();
+            m.rel = st.verif_rel_iter().map(|(a, l)| (a, l.to_string())).collect();
+            m.rel.sort();
+            // contiguous line blocks
+            let mut cur: Option<(u64, Vec<u16>)> = None;
+            for (l, a) in st.line_iter() {
+                match &mut cur {
+                    Some((s, v)) if *s + v.len() as u64 == l as u64 => v.push(a),
+                    _ => { if let Some(c) = cur.take() { m.lines.push(c); } cur = Some((l as u64, vec![a])); }
+                }
+            }
+            if let Some(c) = cur { m.lines.push(c); }
+            m.src = st.source_info().map(|s| s.source().to_string());
+        }
+        m
+    }
+    fn to_bin(&self) -> Vec<u8> {
+        let mut b = b"obj\x21\x10\x00\x01".to_vec();
+        for (s, w) in &self.blocks {
+            b.push(0); b.extend(s.to_le_bytes()); b.extend((w.len() as u16).to_le_bytes());
+            for x in w { match x { Some(v) => { b.push(0xFF); b.extend(v.to_le_bytes()); } None => b.extend([0, 0, 0]) } }
+        }
+        if self.sym {
+            for (k, a, x, s) in &self.labels {
+                b.push(1); b.extend(a.to_le_bytes()); b.push(*x as u8); b.extend(s.to_le_bytes()); b.extend((k.len() as u64).to_le_bytes()); b.extend(k.as_bytes());
+            }
+            for (l, v) in &self.lines { b.push(2); b.extend(l.to_le_bytes()); b.extend((v.len() as u16).to_le_bytes()); for a in v { b.extend(a.to_le_bytes()); } }
+            if let Some(s) = &self.src { b.push(3); b.extend((s.len() as u64).to_le_bytes()); b.extend(s.as_bytes()); }
+            for (a, l) in &self.rel { b.push(4); b.extend(a.to_le_bytes()); b.extend((l.len() as u64).to_le_bytes()); b.extend(l.as_bytes()); }
+        }
+        b
+    }
+    fn to_txt(&self) -> String {
+        use std::fmt::Write;
+        let mut t = String::from("LC-3 OBJ FILE\n\n.TEXT\n");
+        for (s, w) in &self.blocks {
+            let _ = writeln!(t, "{s:04X}\n{}", w.len());
+            for x in w { match x { Some(v) => { let _ = writeln!(t, "{v:04X}"); } None => t.push_str("????\n") } }
+        }
+        t.push('\n');
+        if self.sym {
+            t.push_str(".SYMBOL\n");
+            if !self.labels.is_empty() { t.push_str("ADDR | EXT | LABEL\n"); for (k, a, x, _) in &self.labels { let _ = writeln!(t, "{a:04X} | {:3} | {k}", *x as u8); } }
+            t.push_str("\n.LINKER_INFO\n");
+            if !self.rel.is_empty() { t.push_str("ADDR | LABEL\n"); for (a, l) in &self.rel { let _ = writeln!(t, "{a:04X} | {l}"); } }
+            t.push_str("\n.DEBUG\n# DEBUG SYMBOLS FOR LC3TOOLS\n\n");
+            if !self.labels.is_empty() { t.push_str("LABEL | INDEX\n"); for (k, _, _, s) in &self.labels { let _ = writeln!(t, "{k} | {s}"); } }
+            t.push_str("====================\n");
+            if let Some(src) = &self.src {
+                // line table: one row per source line (and per mapped line beyond the source)
+                let mut rows: std::collections::BTreeMap<u64, (Option<u16>, String)> = std::collections::BTreeMap::new();
+                let mut start = 0usize;
+                for (i, piece) in src.split_inclusive('\n').enumerate() { rows.insert(i as u64, (None, piece.to_string())); start += piece.len(); }
+                let _ = start;
+                if src.is_empty() || src.ends_with('\n') { let n = rows.len() as u64; rows.insert(n, (None, String::new())); }
+                for (l, v) in &self.lines { for (i, a) in v.iter().enumerate() { rows.entry(l.wrapping_add(i as u64)).or_default().0 = Some(*a); } }
+                t.push_str("LINE | ADDR | SOURCE\n");
+                for (l, (a, s)) in rows.iter().take(4000) {
+                    let _ = write!(t, "{l:4} | ");
+                    match a { Some(a) => { let _ = write!(t, "{a:04X}"); } None => t.push_str("????") }
+                    let _ = writeln!(t, " | {}", s.escape_default());
+                }
+            }
+            t.push_str("====================\n");
+        }
+        t
+    }
+}
+
+fn mutate_obj(rng: &mut StdRng, m: &mut MalObj) -> &'static str {
+    let nb = m.blocks.len();
+    match rng.random_range(0..26) {
+        0 if nb > 0 => { let i = rng.random_range(0..nb); let l = m.blocks[i].1.len() as u32; m.blocks[i].0 = (0x10000u32 - l.min(0xFFFF)) as u16; "block-ends-at-10000" }
+        1 if nb > 0 => { let i = rng.random_range(0..nb); let l = m.blocks[i].1.len() as u32; m.blocks[i].0 = (0x10000u32 - (l / 2).max(1).min(0xFFFF)) as u16; "block-wraps" }
+        2 if nb > 0 => { let i = rng.random_range(0..nb); m.blocks[i].0 = *pick(rng, &[0xFFFFu16, 0xFFFE, 0xFE00, 0xFDFF, 0]); "block-at-edge" }
+        3 if nb > 0 => { let i = rng.random_range(0..nb); let (s, w) = m.blocks[i].clone(); m.blocks.push((s.wrapping_add(1), w)); "block-overlap" }
+        4 if nb > 0 => { let i = rng.random_range(0..nb); let n = m.blocks[i].1.len(); for k in (n.saturating_sub(rng.random_range(1..4)))..n { m.blocks[i].1[k] = None; } "uninit-tail" }
+        5 if nb > 0 => { let i = rng.random_range(0..nb); m.blocks[i].0 = 0xFFFF - rng.random_range(0..3); m.blocks[i].1 = vec![None; rng.random_range(1..6)]; "uninit-run-at-top" }
+        6 => { m.blocks.push((rng.random(), vec![])); "empty-block" }
+        7 => { m.sym = true; m.rel.push((rng.random(), pick(rng, &["NOWHERE", "A", ""]).to_string())); "rel-anywhere" }
+        8 if !m.labels.is_empty() => { m.sym = true; let l = m.labels[rng.random_range(0..m.labels.len())].0.clone(); m.rel.push((*pick(rng, &[0u16, 0xFE00, 0xFFFF, 0x2FFF]), l)); "rel-of-known-label-outside" }
+        9 if !m.labels.is_empty() => { let i = rng.random_range(0..m.labels.len()); m.labels[i].2 = !m.labels[i].2; "flip-external" }
+        10 if !m.labels.is_empty() => { let i = rng.random_range(0..m.labels.len()); m.labels[i].1 = rng.random(); "label-addr" }
+        11 => { m.sym = true; m.labels.push((pick(rng, &["", " ", "a | b", "\u{e9}", "X", "====", ".TEXT"]).to_string(), rng.random(), chance(rng, 50), *pick(rng, &[0u64, 1 << 40, u64::MAX]))); "odd-label" }
+        12 if !m.labels.is_empty() => { let i = rng.random_range(0..m.labels.len()); m.labels[i].3 = *pick(rng, &[u64::MAX, 1 << 63, 1 << 32, 99999]); "label-src-huge" }
+        13 if !m.lines.is_empty() => { let i = rng.random_range(0..m.lines.len()); m.lines[i].0 = *pick(rng, &[u64::MAX, u64::MAX - 1, 1 << 63, 1 << 32, 100000]); "line-number-huge" }
+        14 if !m.lines.is_empty() => { let i = rng.random_range(0..m.lines.len()); m.lines[i].0 = m.lines[i].0.wrapping_add(*pick(rng, &[1u64, 5, 1000])); "lines-past-source" }
+        15 if !m.lines.is_empty() => { let i = rng.random_range(0..m.lines.len()); m.lines[i].1.reverse(); let v = m.lines[i].1.clone(); m.lines[i].1.extend(v); "lines-unsorted" }
+        16 if !m.lines.is_empty() => { let (l, v) = m.lines[rng.random_range(0..m.lines.len())].clone(); m.lines.push((l.wrapping_add((v.len() as u64) / 2), v)); "line-blocks-overlap" }
+        17 => { m.sym = true; m.lines.push((*pick(rng, &[0u64, 3, 50, u64::MAX - 2]), (0..rng.random_range(1..5)).map(|k| 0x3000 + k).collect())); if m.src.is_none() && chance(rng, 50) { m.src = Some("x\ny".into()); } "extra-lines" }
+        18 => { if let Some(s) = &mut m.src { let n = s.len() / 2; let mut k = n; while !s.is_char_boundary(k) { k -= 1; } s.truncate(k); } "src-truncated" }
+        19 => { m.src = None; "src-removed" }
+        20 => { m.sym = true; m.src = Some(pick(rng, &["", "\n", "\n\n\n", "a | b | c\n====\n", "\u{0}7\\"]).to_string()); "src-replaced" }
+        21 => { m.sym = !m.sym; "sym-toggled" }
+        22 if nb > 0 => { let i = rng.random_range(0..nb); m.blocks[i].1 = vec![Some(0x1234); *pick(rng, &[0x200usize, 0x2000, 0xFFFF])]; "block-huge" }
+        23 => { m.labels.clear(); "labels-cleared" }
+        24 if !m.rel.is_empty() => { let (a, l) = m.rel[0].clone(); m.rel.push((a.wrapping_add(1), l)); "rel-dup" }
+        _ => { m.blocks.push((rng.random(), vec![Some(rng.random()), None, Some(rng.random())])); "extra-block" }
+    }
+}
+
+fn mutate_bytes(rng: &mut StdRng, b: &mut Vec<u8>) {
+    if b.is_empty() { b.push(rng.random()); return; }
+    for _ in 0..rng.random_range(1..4) {
+        let i = rng.random_range(0..b.len());
+        match rng.random_range(0..7) {
+            0 => b[i] = rng.random(),
+            1 => b[i] = *pick(rng, &[0u8, 0xFF, 0x7F, 0x80, 1, 2, 3, 4]),
+            2 => { b.truncate(i); if b.is_empty() { return; } }
+            3 => { let j = rng.random_range(i..=b.len().min(i + 24)); let seg: Vec<u8> = b[i..j].to_vec(); for (k, x) in seg.into_iter().enumerate() { b.insert(i + k, x); } }
+            4 => { let j = (i + rng.random_range(1..9)).min(b.len()); b.drain(i..j); if b.is_empty() { return; } }
+            5 => { for k in i..(i + 8).min(b.len()) { b[k] = 0xFF; } }
+            _ => { b.insert(i, *pick(rng, &[0u8, 1, 2, 3, 4, 5])); }
+        }
+    }
+}
+fn mutate_text(rng: &mut StdRng, t: &mut String) {
+    let mut lines: Vec<String> = t.split('\n').map(|s| s.to_string()).collect();
+    for _ in 0..rng.random_range(1..4) {
+        if lines.is_empty() { break; }
+        let i = rng.random_range(0..lines.len());
+        match rng.random_range(0..10) {
+            0 => { lines.remove(i); }
+            1 => { let l = lines[i].clone(); lines.insert(i, l); }
+            2 => { lines[i] = pick(rng, &["====================", ".TEXT", ".SYMBOL", ".LINKER_INFO", ".DEBUG", "", "????", "FFFF", "65535", "LINE | ADDR | SOURCE", "LABEL | INDEX", "ADDR | EXT | LABEL", "="]).to_string(); }
+            3 => { let j = rng.random_range(0..lines.len()); lines.swap(i, j); }
+            4 => { lines[i] = lines[i].replace(" | ", *pick(rng, &["|", " |  | ", "  ", " | "])); }
+            5 => { lines[i] = lines[i].replace(|c: char| c.is_ascii_digit(), *pick(rng, &["9", "F", "0", ""])); }
+            6 => { lines[i].push_str(*pick(rng, &["\\", "\\u{110000}", "\\x", " | x", "\\u{D800}", "\u{e9}"])); }
+            7 => { lines.truncate(i); }
+            8 => { lines[i] = format!("{}{}", pick(rng, &["18446744073709551615", "99999999999999999999", "-1", "4294967296"]), &lines[i][lines[i].len().min(1)..]); }
+            _ => { lines.insert(i, pick(rng, &["====================", ".DEBUG", "0 | 3000 | x", "FFFF", "3", "????"]).to_string()); }
+        }
+    }
+    *t = lines.join("\n");
+}
+
+fn link_outcome(a: ObjectFile, b: ObjectFile) -> Value {
+    match js::guard(move || ObjectFile::link(a, b)) {
+        Err(()) => json!({"res": "panic", "panic": 1, "obj": js::obj_none(), "errq": 0, "after": 0}),
+        Ok(Err(e)) => { let ej = err_json(&e); json!({"res": kind_name(&e.kind), "panic": 0, "obj": js::obj_none(), "errq": ej["qpanic"], "after": 0}) }
+        Ok(Ok(o)) => {
+            // the result is itself usable: serialize, load, query
+            let after = js::guard(|| { let _ = BinaryFormat::serialize(&o); let _ = TextFormat::serialize(&o); let mut s = Simulator::new(SimFlags::default()); let _ = s.load_obj_file(&o); let d = dbgq_json(&o); if d["panic"] == 1 { panic!("query panicked"); } });
+            let pj = js::guard(|| js::obj(&o));
+            json!({"res": "ok", "panic": 0, "obj": pj.clone().unwrap_or(js::obj_none()), "errq": 0, "after": (after.is_err() || pj.is_err()) as u8})
+        }
+    }
+}
+
+/// `lc3v emit untrusted`: arbitrary and adversarially structured inputs to both readers, then
+/// re-serialize, link (both orders, with assembled partners and with itself), load, step.
+pub fn emit_untrusted(a: &Args, out: &mut Out) {
+    let mut rng = rng_for(a, 0x19);
+    let n = a.get_u64("n", if a.thorough() { 12000 } else { 1200 });
+    // partners: assembled files (debug and not), one declaring an external, one defining common names
+    let partner_src = [
+        ".orig x6000\nPA ADD R0, R0, #1\n.fill PA\nHALT\n.end\n",
+        ".external A\n.orig x6100\n.fill A\nX .fill x1\n.end\n",
+        ".orig x0000\nA .fill x7\n.blkw 2\n.end\n.orig xFDFE\nNOWHERE .fill 1\n.fill 2\n.end\n",
+    ];
+    let mut partners: Vec<ObjectFile> = vec![];
+    for (i, s) in partner_src.iter().enumerate() {
+        let ast = parse_ast(s).unwrap();
+        partners.push(if i == 1 { assemble(ast).unwrap() } else { assemble_debug(ast, s).unwrap() });
+    }
+    // the pool of valid objects to start from
+    let mut pool: Vec<ObjectFile> = partners.clone();
+    let mut tries = 0;
+    while pool.len() < 40 && tries < 400 {
+        tries += 1;
+        let cfg = cfg_for(&mut rng, false, 0);
+        let prog = asmgen::gen_program(&mut rng, &cfg);
+        let text = text_of(&prog, &mut rng);
+        if let Ok(ast) = parse_ast(&text) { if let Ok(o) = if chance(&mut rng, 70) { assemble_debug(ast, &text) } else { assemble(ast) } { pool.push(o); } }
+    }
+    for run in 1..=n {
+        let fmt_bin = chance(&mut rng, 50);
+        let mode = rng.random_range(0..10);
+        let mut what: Vec<&'static str> = vec![];
+        let (bytes, text): (Vec<u8>, String) = match mode {
+            0 => { // random bytes / text
+                what.push("random");
+                let len = *pick(&mut rng, &[0usize, 1, 7, 8, 20, 200]);
+                let mut b: Vec<u8> = (0..len).map(|_| rng.random()).collect();
+                if chance(&mut rng, 50) { let mut h = b"obj\x21\x10\x00\x01".to_vec(); h.extend(b); b = h; }
+                let t: String = (0..len).map(|_| *pick(&mut rng, &['a', '\n', '.', '=', '|', ' ', '0', 'F', '?', '#', '\u{e9}', '\\'])).collect();
+                (b, if chance(&mut rng, 50) { format!("LC-3 OBJ FILE\n{t}") } else { t })
+            }
+            1 | 2 => { // byte / line mutations of a valid serialization
+                what.push("mutated-serialization");
+                let o = &pool[rng.random_range(0..pool.len())];
+                let mut b = BinaryFormat::serialize(o); mutate_bytes(&mut rng, &mut b);
+                let mut t = TextFormat::serialize(o); mutate_text(&mut rng, &mut t);
+                (b, t)
+            }
+            _ => { // structured: an abstract object that breaks the writers' invariants
+                let mut m = MalObj::of(&pool[rng.random_range(0..pool.len())]);
+                for _ in 0..rng.random_range(1..=3) { what.push(mutate_obj(&mut rng, &mut m)); }
+                (m.to_bin(), m.to_txt())
+            }
+        };
+        let input_len = if fmt_bin { bytes.len() } else { text.len() };
+        let d = if fmt_bin { js::guard(|| BinaryFormat::deserialize(&bytes)) } else { js::guard(|| TextFormat::deserialize(&text)) };
+        let mut rec = json!({"ev": "Untrusted", "run": run, "fmt": if fmt_bin { "bin" } else { "txt" }, "what": what, "len": input_len, "panic": 0});
+        if input_len <= 400 { rec["input"] = if fmt_bin { js::bytes(&bytes) } else { js::bytes(text.as_bytes()) }; }
+        match d {
+            Err(()) => { rec["deser"] = json!("panic"); rec["panic"] = json!(1); rec["obj"] = js::obj_none(); rec["links"] = json!([]); rec["uses"] = json!({"panic": 0}); }
+            Ok(None) => { rec["deser"] = json!("reject"); rec["obj"] = js::obj_none(); rec["links"] = json!([]); rec["uses"] = json!({"panic": 0}); }
+            Ok(Some(o)) => {
+                rec["deser"] = json!("accept");
+                let big = o.addr_iter().count() > 3000;
+                // (the projection itself queries the object: label_iter, line_iter, source_info)
+                let pj = js::guard(|| js::obj(&o));
+                if pj.is_err() { rec["panic"] = json!(1); }
+                rec["obj"] = if big { js::obj_none() } else { pj.unwrap_or(js::obj_none()) };
+                rec["big"] = json!(big as u8);
+                // uses: re-serialize (and read that back), load, step, debug queries
+                let ser = js::guard(|| { let b = BinaryFormat::serialize(&o); let t = TextFormat::serialize(&o); (BinaryFormat::deserialize(&b).is_some(), TextFormat::deserialize(&t).is_some()) });
+                let load = js::guard(|| { let mut s = Simulator::new(SimFlags::default()); let r = s.load_obj_file(&o); let _ = s.step_in(); let _ = s.run_with_limit(20); match r { Ok(()) => "ok", Err(SimErr::UnresolvedExternal(_)) => "UnresolvedExternal", Err(_) => "other" } });
+                let dq = js::guard(|| dbgq_json(&o));
+                rec["uses"] = json!({"panic": (ser.is_err() || load.is_err() || dq.is_err() || dq.as_ref().map(|v| v["panic"] == 1).unwrap_or(false)) as u8,
+                                     "ser": ser.is_ok() as u8, "load": load.unwrap_or("panic"), "dbgq": dq.is_ok() as u8});
+                let mut links = vec![];
+                for (pi, p) in partners.iter().enumerate() {
+                    let mut ab = link_outcome(o.clone(), p.clone()); ab["with"] = json!(pi + 1); ab["order"] = json!("ab");
+                    let mut ba = link_outcome(p.clone(), o.clone()); ba["with"] = json!(pi + 1); ba["order"] = json!("ba");
+                    if big { ab["obj"] = js::obj_none(); ba["obj"] = js::obj_none(); }
+                    links.push(ab); links.push(ba);
+                }
+                let mut oo = link_outcome(o.clone(), o.clone()); oo["with"] = json!(0); oo["order"] = json!("self"); oo["obj"] = js::obj_none();
+                links.push(oo);
+                rec["links"] = Value::Array(links);
+            }
+        }
+        out.emit(rec);
+    }
+    // the partners themselves, for the specification's Link
+    out.emit(json!({"ev": "Partners", "run": 0, "objs": partners.iter().map(js::obj).collect::<Vec<_>>(), "panic": 0}));
+}
